@@ -327,7 +327,7 @@ def idents(e):
         return {e[1]}
     if e[0] == "num":
         return set()
-    return set().union(*[idents(x) for x in e[1:] if isinstance(x, tuple)])
+    return set().union(*[idents(x) for x in e[1:] if isinstance(x, (tuple, list))])
 
 
 def bits(e):
@@ -354,8 +354,11 @@ def bits(e):
         v = 1 / Fr(e[2][1]); f = v.denominator.bit_length() - 1
         return (b1 + abs(v.numerator).bit_length(), f1 + f)
     if k == "pow":
-        (b1, f1) = bits(e[1]); n = int(e[2][1])
+        (b1, f1) = bits(e[1]); n = int(e[2][1]) if e[2][0] == "num" else 3      # a variable exponent takes the values 0..3
         return (b1 * n, f1 * n)
+    if k == "call":
+        (b1, f1), (b2, f2) = bits(e[2]), bits(e[3]); f = max(f1, f2)
+        return (max(b1 + f - f1, b2 + f - f2), f)
     raise ValueError(k)
 
 
@@ -372,7 +375,9 @@ def spell(e, rng, st, lvl=0):
     elif k == "neg":
         body = "-" + sp() + spell(e[1], rng, st, 2)
     elif k == "pow":
-        body = spell(e[1], rng, st, 4) + sp() + rng.choice(st["pow"]) + sp() + e[2][1]
+        body = spell(e[1], rng, st, 4) + sp() + rng.choice(st["pow"]) + sp() + (e[2][1] if e[2][0] == "num" else spell(e[2], rng, st, 4))
+    elif k == "call":
+        body = e[1] + sp() + "(" + sp() + spell(e[2], rng, st, 0) + sp() + "," + sp() + spell(e[3], rng, st, 0) + sp() + ")"
     else:
         a, b = e[1], e[2]
         sym = {"add": "+", "sub": "-", "mul": "*", "div": "/"}[k]
@@ -433,10 +438,24 @@ def gen_expr_case(rng):
         u = rng.choice(bases) if bases and rng.random() < 0.8 else (rng.choice(cand) if cand else None)
         layouts = ["multi" if u else "pair", "pair", "pre"]
         usrc = None
+        if u and rng.random() < 0.4:
+            # the doubly fed input as an exponent (natural values 0..3) and as the second argument of maxi / mini:
+            # occurrences directly after `^` and `,` (parser.replace decides by the neighbouring characters)
+            others = [("var", nm) for nm in names if nm not in (u, p2)] + [("num", "1.5")]
+            T = rng.choice([("pow", ("num", rng.choice(["2", "0.5"])), ("var", u)),
+                            ("pow", ("add", rng.choice(others), rng.choice(others)), ("var", u)),
+                            ("call", rng.choice(["maxi", "mini"]), rng.choice(others), ("var", u)),
+                            ("call", rng.choice(["maxi", "mini"]), ("var", u), rng.choice(others)),
+                            ("add", ("pow", rng.choice(others), ("var", u)), ("call", "maxi", rng.choice(others), ("var", u)))])
+            e2 = (rng.choice(["add", "sub"]), e, T)
+            if bits(e2)[0] <= 44:
+                e = e2
+                for p in pts:
+                    p[u] = str(rng.randint(0, 3))
         if u:
             usrc = []
             for p in (0, 2):
-                a = Fr(rng.randint(-12, 12), 8)
+                a = Fr(rng.randint(-12, 12), 8) if Fr(pts[p][u]).denominator != 1 or rng.random() < 0.3 else Fr(rng.randint(-1, 2))
                 usrc.append([str(a), str(Fr(pts[p][u]) - a)])
         spellings = [dict(s=spell(e, rng, STYLES[i]), form=forms[i], layout=layouts[i]) for i in range(3)]
         return dict(kind="expr", lhs=lhs, names=names, ast=e, pts=pts, spellings=spellings, u=u, usrc=usrc, canon=spell(e, rng, CANON))
